@@ -214,6 +214,110 @@ func genVariants(p *an.Prog, files map[string]bool) []variant {
 			}
 			return true
 		})
+		// invariance: `defer mu.Unlock()` -> explicit unlock before every return (only where that preserves
+		// behaviour: no other defer, no panic, no func literal, and every return yields identifiers / literals only)
+		for _, d := range f.Decls {
+			fd, ok := d.(*ast.FuncDecl)
+			if !ok || fd.Body == nil {
+				continue
+			}
+			var dfr *ast.DeferStmt
+			nDefer, bad := 0, false
+			var rets []*ast.ReturnStmt
+			ast.Inspect(fd.Body, func(m ast.Node) bool {
+				switch x := m.(type) {
+				case *ast.FuncLit:
+					bad = true
+					return false
+				case *ast.DeferStmt:
+					nDefer++
+					dfr = x
+				case *ast.ReturnStmt:
+					rets = append(rets, x)
+					for _, r := range x.Results {
+						switch r.(type) {
+						case *ast.Ident, *ast.BasicLit:
+						default:
+							bad = true
+						}
+					}
+				case *ast.CallExpr:
+					if id, ok := x.Fun.(*ast.Ident); ok && id.Name == "panic" {
+						bad = true
+					}
+					// a callee of this package that can panic would leak the lock after the rewrite
+					var obj types.Object
+					switch fx := x.Fun.(type) {
+					case *ast.Ident:
+						obj = info.Uses[fx]
+					case *ast.SelectorExpr:
+						obj = info.Uses[fx.Sel]
+					}
+					if fo, ok := obj.(*types.Func); ok && fo.Pkg() == p.Types {
+						if sf := p.SSA.FuncValue(fo.Origin()); sf != nil {
+							for _, b := range sf.Blocks {
+								for _, in := range b.Instrs {
+									if an.IsPanic(in) {
+										bad = true
+									}
+								}
+							}
+						}
+					}
+				}
+				return true
+			})
+			if bad || nDefer != 1 || dfr == nil {
+				continue
+			}
+			sel, ok := dfr.Call.Fun.(*ast.SelectorExpr)
+			if !ok || (sel.Sel.Name != "Unlock" && sel.Sel.Name != "RUnlock") || len(dfr.Call.Args) != 0 {
+				continue
+			}
+			// the defer must be a top-level statement of the body
+			top := false
+			for _, s := range fd.Body.List {
+				if s == ast.Stmt(dfr) {
+					top = true
+				}
+			}
+			if !top {
+				continue
+			}
+			unlock := src(fset, content, dfr.Call)
+			eds := []edit{del(dfr)}
+			for _, r := range rets {
+				if r.Pos() < dfr.Pos() {
+					continue // before the lock was taken
+				}
+				eds = append(eds, edit{fname, off(r.Pos()), off(r.Pos()), unlock + "\n"})
+			}
+			last := fd.Body.List[len(fd.Body.List)-1]
+			if _, isRet := last.(*ast.ReturnStmt); !isRet {
+				eds = append(eds, edit{fname, off(fd.Body.Rbrace), off(fd.Body.Rbrace), unlock + "\n"})
+			}
+			out = append(out, variant{Kind: "inv", Op: "defer-to-explicit-unlock", Desc: "defer " + unlock + " -> explicit unlock before every return in " + fd.Name.Name, Pos: at(fd), Edits: eds})
+		}
+		// sensitivity: move a Broadcast behind the unlock that follows it (explicit unlocks only) is covered by
+		// delete-broadcast + the SL rule; sensitivity: drop an early-return guard
+		ast.Inspect(f, func(n ast.Node) bool {
+			ifs, ok := n.(*ast.IfStmt)
+			if !ok || ifs.Else != nil || len(ifs.Body.List) != 1 {
+				return true
+			}
+			if _, isRet := ifs.Body.List[0].(*ast.ReturnStmt); !isRet {
+				return true
+			}
+			c := src(fset, content, ifs.Cond)
+			if strings.Contains(c, "err") || strings.Contains(c, "== nil") {
+				return true // plain error / nil-argument plumbing: exposed by any test
+			}
+			if ifs.Init != nil {
+				return true
+			}
+			add("sens", "drop-guard", "drop `if "+short(c)+" { return ... }`", ifs, del(ifs))
+			return true
+		})
 		// invariance: rename locals (one variant per function: all its local variables get a suffix)
 		for _, d := range f.Decls {
 			fd, ok := d.(*ast.FuncDecl)
